@@ -84,7 +84,25 @@ def build_symx():
 # ------------------------------------------------------------------------------------------------
 # solver plumbing
 # ------------------------------------------------------------------------------------------------
+_SOLVER_CACHE = {}
+SOLVER_CACHE_HITS = [0]
+
+
 def run_solver(cmd, script, timeout):
+    """One fresh solver process per script. Identical (solver, script) pairs — the bare / abstracted attempts of a
+    goal that recurs on many paths — are answered from this run's cache when the first answer was definitive."""
+    key = (cmd[0], hashlib.sha1(script.encode()).hexdigest())
+    hit = _SOLVER_CACHE.get(key)
+    if hit is not None:
+        SOLVER_CACHE_HITS[0] += 1
+        return hit[0], hit[1], 0.0
+    v, out, dt = _run_solver(cmd, script, timeout)
+    if v in ("sat", "unsat"):
+        _SOLVER_CACHE[key] = (v, out)
+    return v, out, dt
+
+
+def _run_solver(cmd, script, timeout):
     t0 = time.time()
     try:
         p = subprocess.run(cmd, input=script, stdout=subprocess.PIPE, stderr=subprocess.STDOUT, text=True, timeout=timeout + 5)
